@@ -37,7 +37,8 @@ type bceSite struct {
 var bceCache = map[string][]bceSite{}
 
 func (w *World) bceSites() ([]bceSite, error) {
-	if s, ok := bceCache[w.GOARCH]; ok {
+	// per tree and architecture (the self-tests load scratch copies in the same process)
+	if s, ok := bceCache[w.Dir+"\x00"+w.GOARCH]; ok {
 		return s, nil
 	}
 	cmd := exec.Command("go", "build", "-gcflags=-l -d=ssa/check_bce/debug=1", "./...")
@@ -80,7 +81,7 @@ func (w *World) bceSites() ([]bceSite, error) {
 		// a warm build cache replays diagnostics; an empty listing for this repository means the flag was not honoured
 		return nil, fmt.Errorf("bounds-check listing is empty (compiler diagnostics not produced)")
 	}
-	bceCache[w.GOARCH] = sites
+	bceCache[w.Dir+"\x00"+w.GOARCH] = sites
 	return sites, nil
 }
 
